@@ -3,7 +3,7 @@
 EXTENDS MarkerSemantics
 PfvQuick   == { <<2, 7, 18>>, <<3, 1, 0>>, <<3, 7, 9>>, <<3, 8, 0>>, <<3, 8, 1>>, <<3, 9, 0>>, <<3, 9, 1>>, <<3, 10, 0>>, <<3, 10, 2>>, <<3, 11, 0>>, <<4, 0, 0>> }
 RelQuick   == { <<5, 10>>, <<6, 1, 0>> }
-LitsQuick  == { <<3>>, <<3, 8>>, <<3, 10>>, <<3, 8, 1>>, <<3, 9, 0>>, <<4>> }
+LitsQuick  == { <<3>>, <<3, 8>>, <<3, 10>>, <<3, 8, 1>>, <<3, 9, 0>>, <<3, 9, 1>>, <<4>> }
 ItemsQuick == { <<3, 8>>, <<3, 10>>, <<2, 7>> }
 PfvSmall   == { <<2, 7, 18>>, <<3, 8, 0>>, <<3, 9, 0>>, <<3, 10, 0>>, <<3, 10, 2>> }
 RelOne     == { <<5, 10>> }
